@@ -52,6 +52,11 @@ HInit == [ snd        |-> EmptyFn, \* task id -> [arb, thr, kind, st]; st: "open
            cands      |-> {},      \* codes of stop calls that started before any stop call had ended ("first")
            run        |-> NoRun,
            blockon    |-> {},      \* <<expected, got>>
+           awaiting   |-> EmptyFn, \* arb -> the sends to it that had been accepted (returned true) when the driver began to
+                                   \* wait for the commands it had queued there to start (H_AwaitStart)
+           awaited    |-> {},      \* arbiters for which such a wait has ended, either way (evidence counter only)
+           stranded   |-> {},      \* ids: accepted by an arbiter on which no stop of any kind was issued during a whole
+                                   \* watchdog period afterwards, and not started by the end of that period (H_AwaitEnd)
            clients    |-> {},      \* thread ids of client threads (everything that is not an arbiter thread)
            sysTid     |-> 0,       \* thread id of the system thread (0 unknown)
            sysId      |-> 0 ]      \* System id (as seen by the thread that created it); -1 unknown in tasks
@@ -113,6 +118,22 @@ H_Join(g, a, ok) ==
                        !.joinNoCause = IF g.sysStarted = 0 /\ a \notin g.stopStarted THEN @ \cup {a} ELSE @]
         ELSE IF g.sysStarted = 0 THEN [g EXCEPT !.earlyTimeout = @ \cup {a}]
         ELSE [g EXCEPT !.joined = Put(@, a, "timeout")]
+
+\* The driver has queued commands on arbiter `a` (all those sends have returned) and now waits, for at most one watchdog
+\* period, until the last of them has started.  ok = FALSE: the watchdog expired.  An accepted command may go unstarted
+\* only if the loop ends first, so the expiry counts only if, when it is recorded, no stop of any kind (stop() on that
+\* arbiter, System stop) has started, the arbiter was not seen gone and run() has not returned: then every command
+\* accepted before the wait began that has still not started is `stranded`.  (Commands accepted meanwhile are not
+\* counted: they may start a moment later.)
+StartedIn(g, id) == LET a == g.snd[id].arb IN Has(g.started, a) /\ \E i \in 1..Len(g.started[a]) : g.started[a][i].id = id
+H_AwaitStart(g, a) ==
+  [g EXCEPT !.awaiting = Put(@, a, {id \in DOMAIN g.snd : g.snd[id].arb = a /\ g.snd[id].st = "true"})]
+H_AwaitEnd(g, a, ok) ==
+  LET live == a \notin g.stopStarted /\ g.sysStarted = 0 /\ a \notin g.gone /\ g.run.st = "none"
+      left == IF Has(g.awaiting, a) THEN {id \in g.awaiting[a] : ~StartedIn(g, id)} ELSE {} IN
+  [g EXCEPT !.awaited = @ \cup {a},
+            !.awaiting = Del(@, a),
+            !.stranded = IF ~ok /\ live THEN @ \cup left ELSE @]
 
 H_RunRet(g, api, ok, code) ==
   [g EXCEPT !.run = [st |-> "ret", api |-> api, ok |-> ok, code |-> code, coded |-> TRUE,
@@ -192,6 +213,11 @@ C10_JoinAfterLoopEnd ==
 
 C10_BlockOnOutput == \A b \in h.blockon : b[1] = b[2]
 
+\* "start in the order sent" includes that they start: a command accepted by an arbiter whose loop goes on (no stop of any
+\* kind issued, see H_AwaitEnd) starts - however many commands were queued in front of it while the arbiter's thread was
+\* busy, or before its loop was polled for the first time
+C10_AcceptedStarts == h.stranded = {}
+
 \* not part of C09/C10 (reported as drift only): a send reports false only once some stop was issued
 X_FalseOnlyAfterStop ==
   \A id \in DOMAIN h.snd : h.snd[id].st = "false" => (h.snd[id].arb \in h.stopStarted \/ h.sysStarted > 0)
@@ -210,4 +236,5 @@ NT_Early == h.early # {}
 NT_SelfSend == \E id \in DOMAIN h.snd : h.snd[id].thr \notin h.clients   \* sent from a worker arbiter's own thread
 NT_Echo == h.echoes # {}
 NT_NegCode == \E c \in h.cands : c < 0
+NT_Awaited == h.awaited # {}        \* the driver waited for a burst of queued commands to start
 =============================================================================
